@@ -126,6 +126,7 @@ SPEC_ENV = {
 }
 
 _cache = {}
+EXTRA_SPEC_ENV = {}
 
 
 def spec_eval(src, env):
@@ -135,24 +136,56 @@ def spec_eval(src, env):
         tree = ast.fix_missing_locations(Tol().visit(tree))
         code = compile(tree, "<contract>", "eval")
         _cache[src] = code
-    return eval(code, dict(SPEC_ENV, **env))
+    return eval(code, dict(SPEC_ENV, **EXTRA_SPEC_ENV, **env))
 
 
 class Snapshot:
     """attribute bag for the old(self)."""
 
 
+def cdeep(v):
+    """copy containers, keep every other object by identity (external objects, callables)."""
+    if isinstance(v, list):
+        return [cdeep(x) for x in v]
+    if isinstance(v, tuple):
+        return tuple(cdeep(x) for x in v)
+    if isinstance(v, dict):
+        return {k: cdeep(x) for k, x in v.items()}
+    if isinstance(v, set):
+        return set(v)
+    return v
+
+
 def snap(obj):
     s = Snapshot()
-    s.__dict__.update(copy.deepcopy({k: v for k, v in obj.__dict__.items()}))
+    s.__dict__.update({k: cdeep(v) for k, v in obj.__dict__.items()})
     return s
 
 
 class Ghost:
-    def __init__(self, d):
-        self.slept = float(d.get("slept", 0.0))
-        self.sleeps = int(d.get("sleeps", 0))
-        self.extra = {}
+    """All ghost variables of the contract module, by name."""
+
+    def __init__(self, d, names):
+        self.vals = {}
+        for n, kind in names.items():
+            v = d.get(n)
+            if isinstance(v, dict) and "real" in v:
+                v = float(Fraction(v["real"]))
+            if v is None:
+                v = {"int": 0, "real": 0.0, "bool": False, "str": ""}.get(kind, 0)
+            self.vals[n] = float(v) if kind == "real" else v
+
+    def __getattr__(self, n):
+        try:
+            return self.__dict__["vals"][n]
+        except KeyError:
+            raise AttributeError(n)
+
+    def __setattr__(self, n, v):
+        if n == "vals":
+            self.__dict__[n] = v
+        else:
+            self.vals[n] = v
 
 
 def run_job(reg, job, hooks):
@@ -160,14 +193,19 @@ def run_job(reg, job, hooks):
     file, qual = job["file"], job["unit"]
     c = reg.lookup(file, qual)
     modname = file[:-3].replace("/", ".")
+    if file.startswith("@verif/"):
+        modname = file[7:-3].replace("/", ".")
     if modname.endswith(".__init__"):
         modname = modname[:-9]
     mod = importlib.import_module(modname)
     is_method = "." in qual
-    ghost = Ghost(job.get("ghost") or {})
+    ghost = Ghost(job.get("ghost") or {}, reg.ghosts)
     real_sleep = _time.sleep
 
     def fake_sleep(seconds):
+        if hooks.get("on_time_sleep"):
+            hooks["on_time_sleep"](ghost, seconds)
+            return
         ghost.slept += seconds * 1000.0
         ghost.sleeps += 1
     _time.sleep = fake_sleep
@@ -191,6 +229,8 @@ def run_job(reg, job, hooks):
                         val = decode(v)
                         if isinstance(val, dict) and "$fn" in val:
                             val = hooks["make_fn"](val, ghost)
+                        if isinstance(val, dict) and "$ext" in val:
+                            val = hooks["make_ext"](val, ghost)
                         obj.__dict__[f] = val
                 env["self"] = obj
             fn = getattr(cls, qual.split(".")[1])
@@ -199,9 +239,10 @@ def run_job(reg, job, hooks):
         if hooks.get("setup"):
             hooks["setup"](mod, job, ghost, env)
         env.update(params)
-        old = {"__old_" + k: (snap(v) if k == "self" and not c.is_init else copy.deepcopy(v) if not isinstance(v, AnyVal) and not callable(v) else v)
+        old = {"__old_" + k: (snap(v) if k == "self" and not c.is_init else cdeep(v))
                for k, v in env.items()}
-        old["__old_slept"], old["__old_sleeps"] = ghost.slept, ghost.sleeps
+        for g, gv in ghost.vals.items():
+            old["__old_" + g] = gv
         if hooks.get("snapshot"):
             old.update(hooks["snapshot"](mod, ghost))
         # the concrete pre-state must satisfy the class invariant and the preconditions
@@ -209,7 +250,7 @@ def run_job(reg, job, hooks):
             pv = {k[6:]: v for k, v in old.items()}
             pv.update(old)
             pv.update(env)
-            pv["slept"], pv["sleeps"] = ghost.slept, ghost.sleeps
+            pv.update(ghost.vals)
             try:
                 if cd is not None and obj is not None and c.public and not c.is_init:
                     pv["inv"] = lambda o: all(spec_eval(s, dict(pv, self=o)) for s in cd.inv)
@@ -234,7 +275,7 @@ def run_job(reg, job, hooks):
         def cur_env():
             e = dict(env)
             e.update(old)
-            e["slept"], e["sleeps"] = ghost.slept, ghost.sleeps
+            e.update(ghost.vals)
             e["result"] = result
             if hooks.get("snapshot_cur"):
                 e.update(hooks["snapshot_cur"](mod, ghost))
@@ -287,7 +328,7 @@ def run_job(reg, job, hooks):
                     checked.append(f"frame/self.{f}")
                     if f not in obj.__dict__ or not SPEC_ENV["same"](o.__dict__[f], obj.__dict__[f]):
                         failed.append({"clause": f"frame/self.{f}"})
-            for g in ("slept", "sleeps"):
+            for g in ghost.vals:
                 if f"ghost.{g}" not in c.modifies:
                     checked.append(f"frame/ghost.{g}")
                     if not approx_eq(getattr(ghost, g), old["__old_" + g]):
@@ -308,7 +349,7 @@ def run_job(reg, job, hooks):
                         checked.append(f"xpost/{raised}/atomic/self.{f}")
                         if f not in obj.__dict__ or not SPEC_ENV["same"](o.__dict__[f], obj.__dict__[f]):
                             failed.append({"clause": f"xpost/{raised}/atomic/self.{f}"})
-                for g in ("slept", "sleeps"):
+                for g in ghost.vals:
                     checked.append(f"xpost/{raised}/atomic/ghost.{g}")
                     if not approx_eq(getattr(ghost, g), old["__old_" + g]):
                         failed.append({"clause": f"xpost/{raised}/atomic/ghost.{g}"})
@@ -319,7 +360,7 @@ def run_job(reg, job, hooks):
             if obj is not None and c.public and not c.is_init and not c.atomic and cd is not None:
                 for i, src in enumerate(cd.inv):
                     check(f"xpost/{raised}/inv/{i + 1}", src)
-        observed = {"raised": raised, "result": repr(result), "slept": ghost.slept, "sleeps": ghost.sleeps}
+        observed = {"raised": raised, "result": repr(result), "ghost": {k: repr(v) for k, v in ghost.vals.items()}}
         if obj is not None:
             observed["self"] = {k: repr(v) for k, v in obj.__dict__.items()}
         if hooks.get("observe"):
@@ -341,6 +382,7 @@ def main():
     cm = importlib.import_module(sys.argv[1])
     reg = cm.build()
     hooks = getattr(cm, "NATIVE_HOOKS", {})
+    EXTRA_SPEC_ENV.update(hooks.get("spec_env", {}))
     jobs = json.load(open(sys.argv[2]))
     out = []
     for job in jobs:
